@@ -55,3 +55,23 @@ pub enum Channel {
     #[scpi(mnemonic = b"EXTernal10")]
     External10,
 }
+
+/// numeric suffixes of several digits ending in 1, containing 0, and a three-digit one: the suffix is a number, not a
+/// string that may be trimmed digit by digit (`SLOT11` is not `SLOT1` + `1`)
+#[derive(Copy, Clone, PartialEq, Debug, ScpiEnum)]
+pub enum Slot {
+    #[scpi(mnemonic = b"SLOT1")]
+    Slot1,
+    #[scpi(mnemonic = b"SLOT11")]
+    Slot11,
+    #[scpi(mnemonic = b"SLOT21")]
+    Slot21,
+    #[scpi(mnemonic = b"SLOT3")]
+    Slot3,
+    #[scpi(mnemonic = b"SLOT31")]
+    Slot31,
+    #[scpi(mnemonic = b"SLOT101")]
+    Slot101,
+    #[scpi(mnemonic = b"OUTPut10")]
+    Output10,
+}
